@@ -78,7 +78,9 @@ Record lockfacts := {
   ex_stat_error_means_absent : bool;   (* Exists answers false whenever its Stat fails, whatever the error *)
   ex_dir_double_check : bool;          (* a directory is confirmed by checkDirExists (Open + Readdirnames(1)) *)
   ex_open_error_means_absent : bool;
-  ex_readdir_error_other_than_notexist_means_present : bool }.
+  ex_readdir_error_other_than_notexist_means_present : bool;
+  (* files.go removeWithExclusionPatterns *)
+  rm_lstat_failure_fails : bool }.    (* a failed Lstat (other than "does not exist") makes the removal fail, nothing is removed *)
 
 (* what the hand-written parts of the model and of the harness assume *)
 Definition expected_facts : lockfacts := {|
@@ -99,7 +101,7 @@ Definition expected_facts : lockfacts := {|
   ul_attempts := 10; ul_retry_context := true;
   hb_body := [HCtxCheckReturn; HNow; HWriteIgnoreErr; HChtimesIgnoreErr; HSleepPeriodMinusMs 1];
   ex_stat_error_means_absent := true; ex_dir_double_check := true; ex_open_error_means_absent := true;
-  ex_readdir_error_other_than_notexist_means_present := true |}.
+  ex_readdir_error_other_than_notexist_means_present := true; rm_lstat_failure_fails := true |}.
 
 Scheme Equality for mkdir_kind.
 Scheme Equality for errk.
